@@ -46,6 +46,21 @@ def codes_of(module):
     return out
 
 
+_BY_CODE = {}
+_REGISTERED = [False]
+
+
+def _dispatch(code, line):
+    w = _BY_CODE.get(code)
+    if w is None or not w.active:
+        return None
+    w.count += 1
+    if w.count > w.limit:
+        w.active = False
+        raise StepBudgetExceeded("more than %d lines executed, last in %s" % (w.limit, code.co_name))
+    return None
+
+
 class Watch:
     def __init__(self, modules, persistent=True):
         self.persistent = persistent
@@ -61,7 +76,11 @@ class Watch:
                 mon.use_tool_id(TOOL, "verif-budget")
             except ValueError:
                 pass
-            mon.register_callback(TOOL, mon.events.LINE, self._line)
+            if not _REGISTERED[0]:
+                mon.register_callback(TOOL, mon.events.LINE, _dispatch)
+                _REGISTERED[0] = True
+            for co in self.codes:
+                _BY_CODE[co] = self
             if persistent:
                 for co in self.codes:
                     mon.set_local_events(TOOL, co, mon.events.LINE)
